@@ -1,4 +1,5 @@
 import numpy as np
+import copy
 from decimal import Decimal
 
 from .magnitude import Magnitude
@@ -31,12 +32,12 @@ class UnitType:
     def add(self, unit1, unit2):
         if self.baseunits1.dimensions!=self.baseunits2.dimensions:
             raise Exception('Only units with the same dimension can added together', unit1, unit2)
-        return unit1.magnitude + unit2.to(unit1.baseunits).magnitude
+        return unit1.magnitude + copy.copy(unit2).to(unit1.baseunits).magnitude
 
     def sub(self, unit1, unit2):
         if self.baseunits1.dimensions!=self.baseunits2.dimensions:
             raise Exception('Only units with the same dimension can added together', unit1, unit2)
-        return unit1.magnitude - unit2.to(unit1.baseunits).magnitude
+        return unit1.magnitude - copy.copy(unit2).to(unit1.baseunits).magnitude
 
 class StandardUnitType(UnitType):
 
@@ -201,10 +202,10 @@ class LogarithmicUnitType(UnitType):
             raise Exception('Only units with the same dimension can added together', unit1, unit2)
         if self.baseunits1.units!=self.baseunits2.units:
             raise Exception('Only the same units can be added', unit1, unit2)
-        mag1 = unit1.magnitude
-        mag2 = unit2.to(unit1.baseunits).magnitude
+        mag1 = copy.copy(unit1.magnitude)
+        mag2 = copy.copy(unit2).to(unit1.baseunits).magnitude
         mag1.value = np.power(10,mag1.value*unit1.baseunits.magnitude)
-        mag2.value = np.power(10,mag2.value*unit2.baseunits.magnitude)
+        mag2.value = np.power(10,mag2.value*unit1.baseunits.magnitude)
         mag = mag1 + mag2
         mag.value = np.log10(mag.value)/unit1.baseunits.magnitude
         return mag
@@ -214,10 +215,10 @@ class LogarithmicUnitType(UnitType):
             raise Exception('Only units with the same dimension can added together', unit1, unit2)
         if self.baseunits1.units!=self.baseunits2.units:
             raise Exception('Only the same units can be substracted', unit1, unit2)
-        mag1 = unit1.magnitude
-        mag2 = unit2.to(unit1.baseunits).magnitude
+        mag1 = copy.copy(unit1.magnitude)
+        mag2 = copy.copy(unit2).to(unit1.baseunits).magnitude
         mag1.value = np.power(10,mag1.value*unit1.baseunits.magnitude)
-        mag2.value = np.power(10,mag2.value*unit2.baseunits.magnitude)
+        mag2.value = np.power(10,mag2.value*unit1.baseunits.magnitude)
         mag = mag1 - mag2
         mag.value = np.log10(mag.value)/unit1.baseunits.magnitude
         return mag
